@@ -354,6 +354,12 @@ func (f Function) Call(args []cty.Value) (val cty.Value, err error) {
 		if err != nil {
 			return cty.NilVal, err
 		}
+		if retVal == cty.NilVal {
+			// The zero Value has no type, so the conformance check below
+			// cannot be relied on to reject it (anything "conforms" to
+			// cty.DynamicPseudoType); treat it like any other invalid result.
+			panic(fmt.Errorf("function implementation returned neither a value nor an error"))
+		}
 		if len(resultMarks) > 0 {
 			retVal = retVal.WithMarks(resultMarks...)
 		}
